@@ -402,6 +402,7 @@ static bool stale_cached_point(const MIP& m) {
   if (m.first_pending_constraint >= m.input_cs.size()) return false;
   if (m.tableau.num_rows() != m.base.size() || m.mapping.size() != m.internal_space_dim + 1) return false;
   std::unique_ptr<MIP> c = clone(m);
+  c->external_space_dim = c->internal_space_dim;      // scratch clone: compute_generator() walks external_space_dim entries of `mapping'
   try { c->compute_generator(); } catch (...) { return false; }
   for (size_t i = m.first_pending_constraint; i < m.input_cs.size(); ++i) {
     const PPL::Constraint& ci = *m.input_cs[i];
